@@ -22,7 +22,8 @@ for pid in ALL:
         "engine": "sa",
         "level_claimed": {"category": "other", "text": m.EXPLANATION, "design_ref": f"DESIGN.md section 6, {pid}"},
         "level_note": "Trusted base: rustc's type checking and MIR construction (nightly 1.97), the mirfacts serialiser, the engine's CFG/dominator/provenance code and the idiom tables in the rule module. Assumptions: " + "; ".join(getattr(m, "ASSUMPTIONS", [])),
-        "technique": getattr(m, "TECHNIQUE", "static analysis: custom MIR-level rules (call graph, CFG must-pass/dominance, value provenance, atomics inventory) via a rustc_private driver"),
+        "technique": getattr(m, "TECHNIQUE", "static analysis: custom MIR-level rules (call graph, CFG must-pass/dominance, value provenance, atomics inventory) via a rustc_private driver")
+                     + ("; plus type-level compile_fail witnesses with compiling twins (cargo +nightly test --doc, nothing executed)" if "witness.check" in open(p).read() else ""),
     })
 man = {
     "version": 1,
@@ -30,7 +31,7 @@ man = {
     "hooks": {"guard": "tiny_std_verif", "enable": "none - the analysis reads private items from MIR and needs no instrumentation in /repo (guard name reserved, unused)",
               "baseline_off_cmd": BASELINE_CMD, "source_commits": [], "add_only": True},
     "engines": [{"name": "sa", "path": "/verif/sa", "serves_properties": [c["property_id"] for c in checks],
-                 "kind_free_text": "static analysis: rustc_private MIR fact extractor (sa/mirfacts) + Python rule engine (sa/engine, sa/rules); nothing in /repo is executed"}],
+                 "kind_free_text": "static analysis: rustc_private MIR fact extractor (sa/mirfacts) + Python rule engine (sa/engine, sa/rules) + compile_fail witness crate (witness/); nothing in /repo is executed"}],
     "checks": checks,
     "not_applicable": na,
     "notes": "Every claimed property is claimed only for the structural clauses its level text lists as decided; the remaining clauses are stated as not decided. See DESIGN.md.",
